@@ -15,7 +15,7 @@ demo = "demo_test.py" if os.path.exists(os.path.join(src, "demo_test.py")) else 
 text = open(os.path.join(src, demo), encoding="utf-8").read()
 # demonstrations must not depend on the scratch worktree they were written in
 text = re.sub(r"^(\s*)assert .*__file__.*seedwork.*$", r"\1pass  # (worktree path assertion removed)", text, flags=re.M)
-text = re.sub(r"/tmp/seedwork/wt[2345]?-C\d+", ".", text)
+text = re.sub(r"/tmp/seedwork/wt[23456]?-C\d+", ".", text)
 open(os.path.join(dst, demo), "w", encoding="utf-8").write(text)
 if os.path.exists(os.path.join(src, "notes.md")):
     shutil.copy(os.path.join(src, "notes.md"), os.path.join(dst, "notes.md"))
